@@ -8,30 +8,6 @@ The model is tied to the Rust by the correspondence run of `./check C22`.
 -/
 namespace Text
 
-theorem len8_join_take (d : Doc) (ln : Nat) (l : Line) (h : d[ln]? = some l) :
-    len8 ((d.take ln).flatMap (·.chars)) + len8 l.chars ≤ len8 (join d) := by
-  induction d generalizing ln with
-  | nil => simp at h
-  | cons x rest ih =>
-    cases ln with
-    | zero => simp at h; subst h; simp [join, len8]
-    | succ k =>
-      have := ih k (by simpa using h)
-      simp [join, List.take_succ_cons, List.flatMap_cons]; omega
-
-theorem len8_dropLast_le (cs : List Char) : len8 cs.dropLast ≤ len8 cs := by
-  induction cs with
-  | nil => simp [len8]
-  | cons c cs ih =>
-    cases cs with
-    | nil => simp [len8]
-    | cons c' cs' => simp only [List.dropLast_cons_cons, len8] at *; omega
-
-theorem len8_reach_le (l : Line) : len8 l.reach ≤ len8 l.chars := by
-  unfold Line.reach; split
-  · exact len8_dropLast_le _
-  · exact Nat.le_refl _
-
 /-- **C22 roundtrip.** For every text and every character-boundary offset (the byte length of a
 prefix `p` of the text), converting the offset to a position and back returns the same offset. -/
 theorem C22_roundtrip (t p s : List Char) (h : t = p ++ s) :
